@@ -34,8 +34,11 @@ func c14cases(env *core.Env) []c14case {
 	var cs []c14case
 	stride1, stride2 := env.Pick(12, 1), env.Pick(45, 4)
 	for _, shape := range []string{"plain", "txn"} {
-		for i := 0; i < len(c01matrix); i += stride1 {
-			cs = append(cs, c14case{shape, "c01", i})
+		for i := 0; i < len(c01matrix); i++ {
+			// every removal and rename case (a swallowed store error there loses data), a stride of the rest
+			if n := c01matrix[i].Name; i%stride1 == 0 || strings.HasPrefix(n, "Remove") || strings.HasPrefix(n, "Rename") {
+				cs = append(cs, c14case{shape, "c01", i})
+			}
 		}
 		for i := 0; i < len(c02matrix); i += stride2 {
 			if c02matrix[i].Subject == "mem" {
